@@ -231,6 +231,7 @@ func checkLayout(dl *mir.DataLayout, ps int, t *ty, st types.SemType, inv *int64
 func layoutPart(c *vl.Ctx) (layoutStats, string) {
 	leaves := leavesOf(layoutLeaves...)
 	d1 := depth1(leaves, 3)
+	d1 = append(d1, wideTypes()...)
 	d1 = append(d1, results(nil, leaves)...)
 	var all [][]*ty
 	all = append(all, leaves, d1)
@@ -297,6 +298,30 @@ func layoutPart(c *vl.Ctx) (layoutStats, string) {
 
 // ---------------------------------------------------------------- (ii) behavioural
 
+// wideTypes: structs of five and six fields that agree in their first two and their last field
+// and differ in the middle (anything that identifies a struct by an abbreviated spelling mixes
+// them up), and composites larger than 64 and 128 bytes (offsets that need a second LEB128 byte
+// or a sign bit).
+func wideTypes() []*ty {
+	var out []*ty
+	mid := leavesOf("i8", "i16", "i32", "i64")
+	for _, a := range mid {
+		for _, b := range mid {
+			out = append(out, tStruct(tLeaf("i8"), tLeaf("i64"), a, b, tLeaf("i8")))
+		}
+	}
+	out = append(out, tStruct(tLeaf("i8"), tLeaf("i64"), tLeaf("i32"), tLeaf("i8"), tLeaf("i64"), tLeaf("i8")),
+		tStruct(tLeaf("i8"), tLeaf("i64"), tLeaf("i8"), tLeaf("i32"), tLeaf("i16"), tLeaf("i8")))
+	i64t, i32t, i8t := tLeaf("i64"), tLeaf("i32"), tLeaf("i8")
+	nine := make([]*ty, 9)
+	for i := range nine {
+		nine[i] = i64t
+	}
+	out = append(out, tArr(9, i64t), tArr(17, i64t), tArr(20, i32t), tStruct(nine...), tStruct(i64t, tArr(9, i64t), i8t),
+		tArr(3, tStruct(i64t, i64t, i64t, i64t)), tStruct(i8t, tArr(17, i64t), i8t))
+	return out
+}
+
 // behaviouralTypes returns the types that get the fine-grained case set, those that get only
 // the lean set, and the result types.
 func behaviouralTypes(quick bool) (fine, lean, res []*ty, bound string) {
@@ -346,6 +371,7 @@ func behaviouralTypes(quick bool) (fine, lean, res []*ty, bound string) {
 		d2 = append(d2, oneComposite(ch, leavesOf("i8"), 2)...)
 		fine = []*ty{tStruct(two[0], two[1]), tArr(2, two[0]), tOpt(two[1]), tStruct(bt, u8t), tArr(3, bt)}
 		lean = append(append(lean, d1...), d2...)
+		lean = append(lean, wideTypes()...)
 		res = append(results(nil, all6), results(ch, leavesOf("i64"))...)
 		bound = fmt.Sprintf("behavioural (quick): depth1 = structs of 1-2 fields over {i8,i16,i32,i64,bool,str}, of 3 fields over {i8,i64,str} and the six orders of (i8,i32,i64), [2]T/[3]T/T? over all six: %d types; depth2 = [2]C, C?, {C}, {C,i8}, {i8,C} for C in the structs of 1-2 fields, [2]T, T? over {i8,i64} (%d children): %d types; fine-grained case set on %d depth1 types; results: leaf x leaf over six leaves, and C ! i64, i64 ! C: %d", len(d1), len(ch), len(d2), len(fine), len(res))
 		return
@@ -392,6 +418,7 @@ func behaviouralTypes(quick bool) (fine, lean, res []*ty, bound string) {
 	fine = append(fine, tStruct(tLeaf("byte"), tLeaf("u8")), tArr(3, tLeaf("byte")), tStruct(tLeaf("byte"), tLeaf("bool"), tLeaf("byte")))
 	fine = append(fine, tStruct(tStruct(two[0], two[1]), two[0]), tArr(2, tStruct(two[0], two[1])), tStruct(tOpt(two[1]), two[0]), tOpt(tStruct(two[0], two[1])))
 	lean = append(append(append(append(lean, d1...), d2...), d2q...), d3...)
+	lean = append(lean, wideTypes()...)
 	res = append(results(nil, all7), results(ch, two)...)
 	bound = fmt.Sprintf("behavioural (thorough): depth1 complete over {i8,i16,i32,i64,i128,bool,str}, structs 1-3 fields: %d; depth2 = [2]C, [3]C, C?, {C}, {C,s}, {s,C}, s in {i8,i64}, C in the depth1 over {i8,i64,str} with structs<=2 fields (%d children), the same over the i128 children with s=i8, and the quick tier's depth2: %d; depth3 = [2]D, D?, {D}, {D,i8} over the quick tier's depth2 (%d): %d; fine-grained case set on %d types; results: leaf x leaf over seven leaves and C ! s, s ! C: %d", len(d1), len(ch), len(d2)+len(d2q), len(d2q), len(d3), len(fine), len(res))
 	return
